@@ -7,7 +7,7 @@ import (
 )
 
 // NumTactics is the number of shape constructors Tactic cycles through.
-const NumTactics = 10
+const NumTactics = 11
 
 // flipColors mirrors the position so that shapes are exercised for both colours.
 func maybeFlip(r *rand.Rand, p ref.Pos) ref.Pos {
@@ -333,6 +333,26 @@ func Tactic(r *rand.Rand, i int) (ref.Pos, bool) {
 			putFree(r, &p, []int8{ref.Queen, ref.Rook, ref.Rook, ref.Queen, ref.Bishop, ref.Knight}[r.Intn(6)])
 		}
 		p.White = r.Intn(3) != 0
+	case 10: // a king next to an enemy rook on its home corner while the castling right is still held
+		p.B[ref.Sq(4, 7)] = -ref.King
+		corner := []int{ref.Sq(7, 7), ref.Sq(0, 7)}[r.Intn(2)]
+		p.B[corner] = -ref.Rook
+		if corner == ref.Sq(7, 7) {
+			p.Cast = ref.CastleBK
+			p.B[[]int{ref.Sq(6, 6), ref.Sq(7, 6), ref.Sq(6, 7)}[r.Intn(3)]] = ref.King
+		} else {
+			p.Cast = ref.CastleBQ
+			p.B[[]int{ref.Sq(1, 6), ref.Sq(0, 6), ref.Sq(1, 7)}[r.Intn(3)]] = ref.King
+		}
+		if r.Intn(2) == 0 && p.B[ref.Sq(0, 7)] == 0 {
+			p.B[ref.Sq(0, 7)] = -ref.Rook
+			p.Cast |= ref.CastleBQ
+		}
+		sprinkle(r, &p, r.Intn(5))
+		if p.B[ref.Sq(4, 7)] != -ref.King || p.B[corner] != -ref.Rook {
+			return p, false
+		}
+		p.White = r.Intn(4) != 0
 	case 9: // lone kings and minimal material (insufficient-material neighbourhood)
 		if putFree(r, &p, ref.King) < 0 || putFree(r, &p, -ref.King) < 0 {
 			return p, false
